@@ -360,100 +360,128 @@ func c04closeVerdict(c *Ctx, r *Report, rule string) {
 		return
 	}
 	where := fnName(fn)
-	var nilRets []*ssa.Return
+	// A return hands back nil when its result is the nil constant or the error result of a
+	// same-package helper that can return nil. The guards may be spelled through predicates and
+	// helpers (ip_g7.go, g7Verdict): the facts at the return are a disjunction of alternatives and
+	// every alternative has to contain each check.
+	vd := &g7Verdict{c: c, fn: fn, busy: map[*ssa.Function]bool{}}
+	type nilRet struct {
+		ret  *ssa.Return
+		alts []g7VAlt
+	}
+	var nilRets []nilRet
 	for _, ret := range returnsOf(fn) {
-		if isNilConst(resOf(ret, 0)) {
-			nilRets = append(nilRets, ret)
+		res := resOf(ret, 0)
+		switch {
+		case isNilConst(res):
+			nilRets = append(nilRets, nilRet{ret, vd.factsAt(ret.Block(), nil, true, 0)})
+		case isErrorExit(ret) || g7KnownNonNil(res, ret.Block()):
+		default:
+			if w := vd.waysNil(res, nil, 0); len(w) != 1 || len(w[0].lits) != 1 || !w[0].lits[0].nilEq || w[0].lits[0].fr != nil {
+				// expanded through a helper (an unexpandable value stays what it was: not a nil return)
+				nilRets = append(nilRets, nilRet{ret, g7Cross(vd.factsAt(ret.Block(), nil, true, 0), w)})
+			}
 		}
 	}
 	if len(nilRets) == 0 {
 		r.Fail(rule, "Close has no nil return (anchor unresolved)")
 		return
 	}
-	loadOf := func(suffix string) func(ssa.Value) bool {
+	loadOf := func(suffix string, fr *ipFrame) func(ssa.Value) bool {
 		return func(v ssa.Value) bool {
 			ld, ok := v.(*ssa.UnOp)
-			return ok && ld.Op == token.MUL && strings.HasSuffix(pathOf(ld), suffix)
+			return ok && ld.Op == token.MUL && strings.HasSuffix(pathOf(ld), suffix) && vd.rootIsReceiver(ld.X, fr)
 		}
 	}
-	callOf := func(name string) func(ssa.Value) bool {
+	callOf := func(name string, fr *ipFrame) func(ssa.Value) bool {
 		return func(v ssa.Value) bool {
 			call, ok := v.(*ssa.Call)
-			return ok && callName(&call.Call) == name
+			return ok && callName(&call.Call) == name && len(call.Call.Args) > 0 && vd.rootIsReceiver(call.Call.Args[0], fr)
 		}
 	}
 	type need struct {
-		name string
-		pred func(v ssa.Value) bool
+		name   string
+		pred   func(v ssa.Value, fr *ipFrame) bool
+		escape bool // the check may be skipped when the crc16 mode flag is off
 	}
 	needs := []need{
-		{"sticky decode error (d.err)", func(v ssa.Value) bool {
-			return dependsOn(v, loadOf(".err")) && !dependsOn(v, callOf("lzhuf.bitReader.Err"))
-		}},
-		{"bit reader error", func(v ssa.Value) bool { return dependsOn(v, callOf("lzhuf.bitReader.Err")) }},
-		{"CRC-16 (header.crc vs running CRC)", func(v ssa.Value) bool {
-			return dependsOn(v, loadOf(".header.crc")) && dependsOn(v, callOf("lzhuf.crcWriter.Sum"))
-		}},
-		{"size (header.size vs decoded position)", func(v ssa.Value) bool {
-			return dependsOn(v, loadOf(".header.size")) && dependsOn(v, loadOf(".state.pos"))
-		}},
+		{"sticky decode error (d.err)", func(v ssa.Value, fr *ipFrame) bool {
+			return dependsOn(v, loadOf(".err", fr)) && !dependsOn(v, callOf("lzhuf.bitReader.Err", fr))
+		}, false},
+		{"bit reader error", func(v ssa.Value, fr *ipFrame) bool { return dependsOn(v, callOf("lzhuf.bitReader.Err", fr)) }, false},
+		{"CRC-16 (header.crc vs running CRC)", func(v ssa.Value, fr *ipFrame) bool {
+			return dependsOn(v, loadOf(".header.crc", fr)) && dependsOn(v, callOf("lzhuf.crcWriter.Sum", fr))
+		}, true},
+		{"size (header.size vs decoded position)", func(v ssa.Value, fr *ipFrame) bool {
+			return dependsOn(v, loadOf(".header.size", fr)) && dependsOn(v, loadOf(".state.pos", fr))
+		}, false},
 	}
-	for _, ret := range nilRets {
-		conds := condsAt(ret.Block())
+	viaOf := func(lit g7Lit, via string) string {
+		if lit.fr == nil || via != "" {
+			return via
+		}
+		return " (the check is made in " + fnName(lit.fr.call.Common().StaticCallee()) + ", called on this Reader)"
+	}
+	for _, nr := range nilRets {
+		ret := nr.ret
 		for _, nd := range needs {
 			o := r.Add(rule, where, "nil return guarded by "+nd.name, c.pos(ret.Pos()))
-			found, why := false, ""
-			check := func(cd Cond, viaConj []Cond) {
-				b, ok := cd.V.(*ssa.BinOp)
-				if !ok || (b.Op != token.EQL && b.Op != token.NEQ) {
-					return
-				}
-				// on the path to `return nil` the comparison must hold as "no error / equal"
-				mismatch := (b.Op == token.NEQ) == cd.Truth
-				if viaConj != nil {
-					// not(… && cond): cond is excluded on this path, i.e. its negation holds
-					mismatch = !mismatch
-				}
-				if mismatch {
-					why = fmt.Sprintf("nil is returned on the mismatch/error edge of the check at %s", c.pos(cd.V.Pos()))
-					return
-				}
-				if viaConj != nil {
-					// the other conjuncts may only be the crc16 mode flag
-					for _, oc := range viaConj {
-						if oc.V == cd.V {
-							continue
+			why, via := "", ""
+			good := len(nr.alts) > 0
+			for _, alt := range nr.alts {
+				found := false
+				for _, lit := range alt.lits {
+					v := lit.v
+					for {
+						u, ok := v.(*ssa.UnOp)
+						if !ok || u.Op != token.NOT {
+							break
 						}
-						if !strings.HasSuffix(pathOf(oc.V), ".crc16") {
-							why = fmt.Sprintf("the check at %s only applies under an additional condition (%s)", c.pos(cd.V.Pos()), pathOf(oc.V))
-							return
-						}
+						v, lit.truth = u.X, !lit.truth
 					}
-				}
-				found = true
-			}
-			for _, cd := range conds {
-				if nd.pred(cd.V) {
-					check(cd, nil)
-				}
-			}
-			if !found {
-				for _, g := range exitGuardsCached(fn) {
-					if !g.Head.Dominates(ret.Block()) || g.Head == ret.Block() || g.Exit.Dominates(ret.Block()) || !regionOnlyErrorExits(g.Exit) || insideChain(g, ret.Block()) {
+					if lit.nilEq {
+						// the error handed back as the verdict is itself the value to be checked
+						if nd.pred(v, lit.fr) {
+							found, via = true, viaOf(lit, via)
+						}
 						continue
 					}
-					for _, cj := range g.Conj {
-						if nd.pred(cj.V) {
-							check(cj, g.Conj)
+					if nd.escape && !lit.truth && strings.HasSuffix(pathOf(v), ".crc16") && loadOf(".crc16", lit.fr)(v) {
+						found = true // checksum mode off: the only condition under which the check may be skipped
+						continue
+					}
+					b, ok := v.(*ssa.BinOp)
+					if !ok || (b.Op != token.EQL && b.Op != token.NEQ) || !nd.pred(b, lit.fr) {
+						continue
+					}
+					// on the path to `return nil` the comparison must hold as "no error / equal"
+					if (b.Op == token.NEQ) == lit.truth {
+						why = fmt.Sprintf("nil is returned on the mismatch/error edge of the check at %s", c.pos(b.Pos()))
+						continue
+					}
+					found, via = true, viaOf(lit, via)
+				}
+				if !found {
+					good = false
+					if why == "" && len(alt.lits) > 0 {
+						var conds []string
+						for _, lit := range alt.lits {
+							if len(conds) < 4 {
+								conds = append(conds, fmt.Sprintf("%s is %v", pathOf(lit.v), lit.truth || lit.nilEq))
+							}
 						}
+						why = "no guard depends on it on the path where " + strings.Join(conds, ", ")
 					}
 				}
 			}
-			if found {
-				o.OK("a guard depending on the %s separates this return from an error exit", nd.name)
+			if good {
+				o.OK("a guard depending on the %s separates this return from an error exit%s", nd.name, via)
 			} else {
 				if why == "" {
 					why = "no dominating guard depends on it"
+				}
+				if vd.over {
+					why += " (too many alternatives: some conditions were not expanded)"
 				}
 				o.Bad("Close can report success without the %s being checked: %s", nd.name, why)
 			}
